@@ -35,6 +35,7 @@ type c19Case struct {
 	Chain    string      `json:"chain"` // client | server-message | server-item
 	Stages   []stageProg `json:"stages"`
 	Requests int         `json:"concurrent_requests"`
+	Clone    bool        `json:"through_a_clone"` // client chain: requests go through client.Clone()
 }
 
 type traceKey struct{}
@@ -329,6 +330,15 @@ func runClient(c c19Case) (traces [][]string, finals []modelRes, coreLogs [][]st
 		return nil, nil, nil, derr
 	}
 	defer cl.Close()
+	if c.Clone {
+		// a clone carries the same middleware chain
+		clone, cerr := cl.Clone()
+		if cerr != nil {
+			return nil, nil, nil, cerr
+		}
+		defer clone.Close()
+		cl = clone
+	}
 	traces = make([][]string, c.Requests)
 	finals = make([]modelRes, c.Requests)
 	var wg sync.WaitGroup
@@ -488,6 +498,9 @@ func TestC19Chains(t *testing.T) {
 	}
 	rapid.Check(t, func(rt *rapid.T) {
 		c := c19Case{Chain: rapid.SampledFrom([]string{"client", "server-message", "server-item"}).Draw(rt, "chain"), Requests: rapid.IntRange(1, 4).Draw(rt, "requests")}
+		if c.Chain == "client" {
+			c.Clone = rapid.IntRange(0, 2).Draw(rt, "clone") == 0
+		}
 		n := rapid.IntRange(0, 4).Draw(rt, "stages")
 		for i := 0; i < n; i++ {
 			var p stageProg
